@@ -120,6 +120,13 @@ class Fv(V):
 
 
 @dataclass
+class Lv(V):
+    """a lambda of module level (no closure): evaluated on its arguments where it is called"""
+    node: object
+    module: str
+
+
+@dataclass
 class Tv(V):
     items: list
     kind: str = 'list'
@@ -1616,6 +1623,30 @@ class SX:
                 it = Tv([Sv(k) for k in it.items])
             if not isinstance(it, Tv):
                 return None
+            if isinstance(s.iter, ast.Name) and it.kind == 'list':
+                # a list iterated by name may GROW while it is iterated (`for e in chain: chain.append(e.next)`): the loop
+                # visits the items appended by its own body too - iterate by position over the list as each path has it
+                work = [(s0, 0)]
+                steps = 0
+                while work:
+                    sc, i = work.pop(0)
+                    steps += 1
+                    if steps > 256:
+                        raise CannotDecide(f'loop over the growing list `{s.iter.id}` does not end within 256 iterations')
+                    now = sc.env.get(s.iter.id)
+                    items = now.items if isinstance(now, Tv) else it.items
+                    if i >= len(items):
+                        outs.append(Outcome(sc, 'fall'))
+                        continue
+                    bound = [o.state for o in self.assign(s.target, items[i], sc, frame, s.lineno) if o.kind == 'fall']
+                    for o in self.block(s.body, bound, frame):
+                        if o.kind in ('fall', 'continue'):
+                            work.append((o.state, i + 1))
+                        elif o.kind == 'break':
+                            outs.append(Outcome(o.state, 'fall'))
+                        else:
+                            outs.append(o)
+                continue
             cur = [s0]
             for item in it.items:
                 nxt = []
@@ -1669,11 +1700,9 @@ class SX:
             for case in s.cases:
                 nxt = []
                 # `case C():` / `case C() | D():` on a named subject is isinstance(subject, (C, D)): decided like an if-test
-                classes = self._class_patterns(case.pattern)
-                if classes is not None and isinstance(s.subject, ast.Name):
-                    test = ast.copy_location(ast.Call(func=ast.Name('isinstance', ast.Load()),
-                                                      args=[s.subject, classes[0] if len(classes) == 1 else ast.Tuple(elts=classes, ctx=ast.Load())],
-                                                      keywords=[]), case.pattern)
+                test = self._pattern_test(s.subject, case.pattern)
+                if test is not None:
+                    test = ast.copy_location(test, case.pattern)
                     ast.fix_missing_locations(test)
                     for sc in pending:
                         tr, fa, rs = self.branch(test, sc, frame)
@@ -1707,6 +1736,34 @@ class SX:
                 pending = nxt
             res.extend(Outcome(sc, 'fall') for sc in pending)
         return res
+
+    @staticmethod
+    def _pattern_test(subject, p):
+        """the test a class pattern stands for: `case C():` on a name is isinstance(name, C); `case C(), D():` on `a, b` is
+        isinstance(a, C) and isinstance(b, D) (a wildcard position tests nothing); None for other patterns"""
+        def one(sub, q):
+            if isinstance(q, ast.MatchAs) and q.pattern is None and q.name is None:
+                return ast.Constant(value=True)
+            classes = SX._class_patterns(q)
+            if classes is None or not isinstance(sub, (ast.Name, ast.Attribute)):
+                return None
+            return ast.Call(func=ast.Name('isinstance', ast.Load()),
+                            args=[sub, classes[0] if len(classes) == 1 else ast.Tuple(elts=classes, ctx=ast.Load())], keywords=[])
+        if isinstance(subject, ast.Name):
+            t = one(subject, p)
+            return t if t is not None and not isinstance(t, ast.Constant) else None
+        if isinstance(subject, ast.Tuple):
+            if isinstance(p, ast.MatchAs) and p.pattern is None and p.name is None:
+                return ast.Constant(value=True)
+            if isinstance(p, ast.MatchSequence) and len(p.patterns) == len(subject.elts) and not any(isinstance(q, ast.MatchStar) for q in p.patterns):
+                tests = [one(sub, q) for sub, q in zip(subject.elts, p.patterns)]
+                if any(t is None for t in tests):
+                    return None
+                tests = [t for t in tests if not isinstance(t, ast.Constant)]
+                if not tests:
+                    return ast.Constant(value=True)
+                return tests[0] if len(tests) == 1 else ast.BoolOp(op=ast.And(), values=tests)
+        return None
 
     @staticmethod
     def _class_patterns(p):
@@ -1823,6 +1880,13 @@ class SX:
                 return Q(kind, v * self.tables.factor(kind, unit.value), U(lit=unit.value))
         if isinstance(node, ast.Constant):
             return self.const_value(node)
+        if isinstance(node, ast.Lambda):
+            return Lv(node, mod)
+        if isinstance(node, ast.Attribute) and isinstance(node.value, ast.Name) and node.value.id == 'operator':
+            return Fv('operator.' + node.attr)
+        if isinstance(node, ast.Dict) and node.keys and all(isinstance(k, ast.Constant) and isinstance(k.value, str) for k in node.keys):
+            # a module-level dispatch table
+            return Dv({k.value: self.module_const(mod, f'{ident}[{k.value!r}]', v) for k, v in zip(node.keys, node.values)})
         if isinstance(node, (ast.Tuple, ast.List)):
             # a module-level table: tuple/list of constants, names of other module constants, nested tuples
             items = []
@@ -2651,6 +2715,42 @@ class SX:
             fv = st.env[name]                 # a local bound to a method of an object (f = obj.m): call the method on that object
             fnode = ast.copy_location(ast.Attribute(value=ast.Name(id='<recv>', ctx=ast.Load()), attr=fv.name[6:], ctx=ast.Load()), n)
             return self.apply(n, fnode, fv.recv, args, kwargs, st, frame)
+        if isinstance(st.env.get(name), Lv):
+            lv = st.env[name]
+            params = [a.arg for a in lv.node.args.args]
+            if len(params) != len(args) or kwargs or lv.node.args.vararg or lv.node.args.kwarg:
+                raise CannotDecide(f'call of a lambda with other than positional arguments: {ast.unparse(n)[:60]}')
+            s1 = st.copy()
+            s1.env = dict(zip(params, args))
+            res = []
+            for r in self.eval_x(lv.node.body, s1, dict(frame, module=lv.module, cls=None)):
+                if isinstance(r, Outcome):
+                    r.state.env = dict(st.env)
+                    res.append(r)
+                else:
+                    s2 = r[0].copy()
+                    s2.env = dict(st.env)
+                    res.append((s2, r[1]))
+            return res
+        if isinstance(st.env.get(name), Fv) and st.env[name].name.startswith('operator.'):
+            opn = st.env[name].name.split('.', 1)[1]
+            cmpops = {'eq': ast.Eq(), 'ne': ast.NotEq(), 'lt': ast.Lt(), 'le': ast.LtE(), 'gt': ast.Gt(), 'ge': ast.GtE()}
+            binops = {'add': ast.Add(), 'sub': ast.Sub(), 'mul': ast.Mult(), 'truediv': ast.Div()}
+            if opn in cmpops and len(args) == 2:
+                v = self.compare_values(cmpops[opn], args[0], args[1], st, n)
+                return [v if isinstance(v, Outcome) else (st, v)]
+            if opn in binops and len(args) == 2:
+                v = self.binop(binops[opn], args[0], args[1], st, n)
+                return [v if isinstance(v, Outcome) else (st, v)]
+        fv = st.env.get(name)
+        if isinstance(fv, Fv) and fv.name.startswith(('E[', 'self.')) and '.' in fv.name and fv.name.rsplit('.', 1)[1].isidentifier():
+            # a local bound to a callable ATTRIBUTE of an object (`f = getattr(e, 'external_torque', None)`; `f = e.external_torque`):
+            # the call is the call of that attribute on that object
+            owner, attr = fv.name.rsplit('.', 1)
+            sargs = [self.show(a) for a in args] + [f'{k}={self.show(v)}' for k, v in sorted(kwargs.items())]
+            fnode = ast.copy_location(ast.Attribute(value=ast.Name(id='<recv>', ctx=ast.Load()), attr=attr, ctx=ast.Load()), n)
+            ocls = 'RotatingObject' if owner.startswith('E[') else None
+            return self.apply(n, fnode, Ov(owner, ocls, False), args, kwargs, st, frame)
         if isinstance(st.env.get(name), Fv) and not st.env[name].name.startswith('bound:'):
             name = st.env[name].name          # a local bound to a function: call the function
         opf = self.operator_imports(frame['module']).get(name)
